@@ -11,6 +11,9 @@ use crate::tape::{Fp, Tape};
 pub const RULE: &str = "two generators. (A) stateful programs (<= 48 operations, shrunk as one value) over {deflateInit2, deflate(any flush), deflateParams, deflateTune, deflatePrime (raw streams before the first deflate, as documented, but any number of calls), deflateSetDictionary, deflateGetDictionary, deflateSetHeader, deflatePending, deflateBound, deflateReset, deflateResetKeep, deflateCopy (then both streams live), deflateEnd} with arbitrary integer arguments and per-call buffers of 0, 1, .. bytes that end at guard pages; afterwards every live stream is driven by a Z_FINISH loop with fresh output space. (B) legal deflate sessions as in C01 (dictionaries, gzip headers, arbitrary deflateTune integers) on libz_rs_sys and zlib_rs::Deflate. Oracle: the worker survives (no abort/panic/signal), canaries around next_out intact, every return value is one the zlib manual lists for that function, Z_FINISH with fresh space produces >= 1 byte per call or returns Z_STREAM_END and ends within the bound, Z_BUF_ERROR is never fatal (the session continues, finishes and its output round-trips). Non-trivial = >= 2 data-moving deflate calls and a perturbing operation (params/tune/prime/reset/copy/dictionary/header) between data-moving calls, or an output-starved stretch with memLevel <= 2; distinct by program fingerprint.";
 
 fn documented(op: &Op, rc: i64) -> bool {
+    if rc == -999 {
+        return true; // not executed (outside the documented position of that call)
+    }
     let rc = rc as i32;
     match op {
         Op::DInit { .. } => matches!(rc, Z_OK | Z_MEM_ERROR | Z_STREAM_ERROR | Z_VERSION_ERROR),
@@ -18,6 +21,7 @@ fn documented(op: &Op, rc: i64) -> bool {
         Op::DParams { .. } => matches!(rc, Z_OK | Z_STREAM_ERROR | Z_BUF_ERROR),
         Op::DTune { .. } | Op::DSetDict { .. } | Op::DGetDict { .. } | Op::DSetHeader { .. } | Op::DPending { .. } | Op::DReset { .. } | Op::DResetKeep { .. } => matches!(rc, Z_OK | Z_STREAM_ERROR),
         Op::DPrime { .. } => matches!(rc, Z_OK | Z_BUF_ERROR | Z_STREAM_ERROR | -999),
+        Op::DSetHeader { .. } => matches!(rc, Z_OK | Z_STREAM_ERROR | -999),
         Op::DCopy => matches!(rc, Z_OK | Z_MEM_ERROR | Z_STREAM_ERROR),
         Op::DEnd { .. } => matches!(rc, Z_OK | Z_STREAM_ERROR | Z_DATA_ERROR),
         _ => true,
